@@ -1014,8 +1014,36 @@ func (fr *Frame) runDefers(st *State, pc Term) {
 		}
 		// defers inside loops may run several times: not modelled precisely
 		if fr.inLoop(d.Block()) {
-			vc.warn("%s: defer inside a loop: heap havoced at function exit", fr.fn.Name())
-			vc.havocAllHeaps(st)
+			// the deferred call ran an unknown number of times with unknown
+			// arguments: havoc what the callee may write (by heap name); its
+			// ensures are not used. A callee with preconditions cannot be
+			// checked this way: everything is havoced.
+			eff := vc.callEffects(fr, &d.Call)
+			hasPre := false
+			if n := fr.deferCalleeName(&d.Call); n != "" {
+				if fc := vc.specs.contractFor(n); fc != nil && len(fc.Requires) > 0 {
+					hasPre = true
+				}
+			}
+			branch := st.clone()
+			if eff.top || hasPre {
+				vc.warn("%s: defer inside a loop: heap havoced at function exit", fr.fn.Name())
+				vc.havocAllHeaps(branch)
+			} else {
+				vc.warn("%s: defer inside a loop: effect set %s havoced at function exit", fr.fn.Name(), strings.Join(eff.sorted(), ","))
+				preSt := st.clone()
+				if len(eff.heaps) > 0 || eff.allocs {
+					vc.bumpWatermark(branch)
+				}
+				for _, h := range eff.sorted() {
+					vc.havocHeapKeepOld(branch, preSt, h, and(pc, flag))
+				}
+			}
+			if eff.top || eff.callsUnknown {
+				fr.havocCaptured(branch, and(pc, flag))
+			}
+			merged := vc.mergeStates([]*State{branch, st}, []Term{and(pc, flag), and(pc, not(flag))}, fmt.Sprintf("deferloop:f%d", fr.id))
+			*st = *merged
 			continue
 		}
 		if flag.S == "true" {
@@ -1027,6 +1055,20 @@ func (fr *Frame) runDefers(st *State, pc Term) {
 		merged := vc.mergeStates([]*State{branch, st}, []Term{and(pc, flag), and(pc, not(flag))}, fmt.Sprintf("defer:f%d", fr.id))
 		*st = *merged
 	}
+}
+
+// deferCalleeName names the callee of a deferred call for contract lookup.
+func (fr *Frame) deferCalleeName(c *ssa.CallCommon) string {
+	if c.IsInvoke() {
+		return fr.vc.specs.ifaceName(c)
+	}
+	if ci, ok := fr.closures[c.Value]; ok {
+		return funcName(ci.fn)
+	}
+	if f := c.StaticCallee(); f != nil {
+		return funcName(f)
+	}
+	return fieldFuncName(c.Value)
 }
 
 func instrIndex(in ssa.Instruction) int {
